@@ -90,16 +90,29 @@ func runC11(c *fw.Ctx) {
 	n := 2 + c.S.Draw(4, "n")
 	t := c.S.Draw(n, "t")
 	ids := scen.DrawIDs(c.S, n)
+	// identifiers of different lengths whose concatenations collide: {a, b, cd} and {a, bc, d} are two
+	// different quorums of one key - the signer set must enter the nonce derivation unambiguously
+	ambiguous := c.S.Draw(8, "ambiguous-ids") == 7
+	if ambiguous {
+		n, t = 5, 2
+		ids = []party.ID{"a", "b", "bc", "cd", "d"}
+	}
 	m := scen.PrepMaterial(c, p, ids, t, "prep")
 	signers := scen.DrawSubset(c.S, ids, t+1)
 	if len(signers) < 2 && n >= 2 {
 		signers = ids[:2]
 	}
 	me := signers[c.S.Draw(len(signers), "signer")]
+	if ambiguous {
+		signers, me = []party.ID{"a", "b", "cd"}, "a"
+	}
 	msg := scen.DrawMsg(c)
 	sid := []byte(c.Label("sid", "sign"))
 	dims := []string{"message", "signer-set", "session-id", "share-other-party", "share-refreshed", "variant", "nothing", "share-derived"}
 	dim := dims[c.S.Draw(len(dims), "dimension")]
+	if ambiguous {
+		dim = "signer-set"
+	}
 	faults := []string{"const", "zero", "repeat", "honest"}
 	fault := faults[c.S.Draw(len(faults), "rng-fault")]
 	if dim == "nothing" {
@@ -117,6 +130,10 @@ func runC11(c *fw.Ctx) {
 	case "signer-set":
 		// another valid signer set containing me
 		var alt []party.ID
+		if ambiguous {
+			signersB = []party.ID{"a", "bc", "d"}
+			break
+		}
 		for try := 0; try < 8; try++ {
 			alt = scen.DrawSubset(c.S, ids, t+1)
 			has := false
